@@ -248,6 +248,9 @@ func (c *rpcComp) Exec(t []string) (extra []string, out string, eff bool) {
 		c.setup(l, d, get("client") == "nil")
 		return nil, "ok", false
 	}
+	if t[0] == "localrelay" {
+		return nil, localRelay(get("outer")), true
+	}
 	if t[0] == "storm" {
 		n, _ := strconv.Atoi(get("callers"))
 		l, _ := strconv.Atoi(get("limit"))
@@ -734,6 +737,10 @@ type rpcStormVariant struct{ rpcComp }
 
 func (v *rpcStormVariant) Prefix() string { return "rpc" }
 func (v *rpcStormVariant) Gen(r *rand.Rand, idx int, emit func(string)) {
+	if idx%9 == 4 {
+		emit("localrelay outer=" + []string{"remote", "local"}[(idx/9)%2])
+		return
+	}
 	cfgs := [][3]int{{70, 50, 10}, {20, 5, 2}, {100, 50, 10}, {30, 0, 0}, {64, 8, 8}}
 	c := cfgs[idx%len(cfgs)]
 	if idx%9 == 6 || idx%9 == 8 {
